@@ -50,6 +50,34 @@ MISSED_FIRST = {
  "C01dD-3": "needs PaletteIndexColor/CRegColor called with an index >= 64 (C09 caught it); the generators now pass any uint8 to the constructors, which reduce it modulo 64",
  "C20dE-1": "needs a Generator whose transform is reset by SetTransform() with no arguments; C20 now resets and replaces transforms on a Generator that already had one",
  "C17dC-4": "needs program B to have a viewBox without extent (legal) on a reused Renderer; a tenth of C17's programs now have one (rasterizer logs only: non-finite coordinates are not handed to golang.org/x/image/vector)",
+ "C06e-2": "a codec fault (arcs beyond the 16th of an encoded run) filed under C06; C06 now also judges an arc that reaches the Renderer as the last of an encoded and decoded run of 1..34 arcs, all numbers exact",
+ "C06e-3": "needs the Renderer to be driven through ivg.DestinationLogger; C04, C05 and C06 now route one run in 8..12 through the logger (C07 already did)",
+ "C10e-1": "needs 256 or more consecutive calls of one drawing verb (8-bit counter); C10's runs, the program generator and C07 now include runs of 255..513",
+ "C01e-2": "needs a read accessor (CSel/NSel/LOD) called in the middle of a path; C01 now interleaves accessor reads with its programs (C10 already did)",
+ "C03e-2": "needs two metadata chunks, the second ill-formed, and the metadata-only entry point; DecodeViewBox parity (accept/reject and viewBox) is now part of the shared comparison of C03, C11 and C02",
+ "C05e-2": "needs an empty target rectangle and a rasterizer whose own bounds are not empty; C05 now has empty targets on a pre-sized rasterizer",
+ "C19e-2": "the gradient was shifted by the rectangle origin (C15 and C16 caught it); C19's geometry now also demands that Draw aligns the paint with the rectangle",
+ "C20e-1": "needs an arc rotation of a full turn or more; path strings now spell rotations up to +-800 degrees",
+ "C20e-2": "needs a circle of radius 0; added to C20's circle lists",
+ "C20e-3": "needs two distinct opacities with the same 8-bit blend weight (0.5, 0.501); added to the opacity pool",
+ "C12e-1": "needs a box whose aspect ratio overflows float32; C12 now draws from the edges of the float32 range (see DESIGN 6.12 for what is judged there)",
+ "C12e-2": "needs a box a few subnormal steps wide; same family",
+ "C12e-3": "needs a target above 1.7e38 with alignment exactly 0.5; same family",
+ "C04e-1": "needs a zero- or NaN-radius arc inside a path that is not painted; C04's path bodies now contain degenerate arcs",
+ "C04e-2": "needs exactly 256*k register writes between two paths filled through the same gradient value (8-bit generation counter); C04 now has such stretches of 254..513 writes, one of which changes a stop colour",
+ "C08e-1": "needs a never-Reset zero-value Encoder with the resolution flag set before the first call (C01 caught the same change); half of C08's high-resolution blocks now encode that way",
+ "C08e-3": "needs low-resolution arc radii below 1/128, a number role C08 did not sweep; new exhaustive sweep through AbsArcTo radii",
+ "C02e-2": "needs 256 or more consecutive operations of one kind decoded into an Encoder (endless loop); C02 now generates such inputs, and the per-case CPU budget of that family is 8 s",
+ "C09e-1": "needs a direct colour equal to an entry of a non-default suggested palette; C09's palette cases now write three such register colours, the program generator one in six",
+ "C09e-2": "needs a hand-made 1-byte-format palette with indirect entries (C13 caught it); added to C09's palette cases against the reference",
+ "C09e-3": "needs a decode option together with a suggested palette (C14 caught it); C09 now decodes every palette once more with an option that restates one entry",
+ "C07e-2": "the 8-bit run counter again (C10 and C01 caught it); C07's histories now contain runs of 255..300",
+ "C15e-1": "needs a gradient-filled rectangle that overhangs the image at the top or left; a quarter of C15's pixel cases now do",
+ "C15e-3": "only reachable through the exported render.AppendRanges called piecewise on a slice without spare capacity; new sub-monitor that uses render.Gradient, AppendRanges and MakeRange directly",
+ "C18e-1": "needs a shared mdicons.Path with a fill-opacity and no opacity; added to C18's shared inputs (hash over the pointed-to values)",
+ "C18e-2": "needs Scale called with one factor handed over as a slice of a shared table with spare capacity; added to C18's generator tasks",
+ "C16e-3": "PaletteIndexColor with an index >= 64 again (C09 and C01 caught it); C16, C14 and C04 now pass any uint8 too",
+ "C17e-3": "needs a caller-held transform slice spread into SetTransform for every graphic (C20 caught it); C17's helper step now does that through its long-lived Generator",
  "C20-2": "SetTransform was called once with literals; C20 now configures the generator twice from a caller-held slice and checks that the slice is unchanged",
 }
 
